@@ -25,6 +25,7 @@ type c04Case struct {
 	Source string `json:"source"` // var | obj
 	Storm  bool   `json:"storm"`
 	Reps   int    `json:"reps"`
+	DocRev bool   `json:"docrev,omitempty"` // the sequenceFlow elements appear in the document in the reverse of the gateway's list order
 	Funnel bool   `json:"funnel,omitempty"` // the tokens are merged into ONE incoming flow of the gateway (fork -> merging exclusive gateway -> X)
 }
 
@@ -52,6 +53,7 @@ func btoi(b bool) int {
 
 func c04Graph(c *c04Case) (*gen.Graph, []string) {
 	g := gen.NewGraph("c04")
+	g.FlowsReversed = c.DocRev
 	if c.Lang == "xpath" {
 		g.Lang = "xpath"
 	}
@@ -124,6 +126,18 @@ func c04Cases(tier string, seed uint64) []fw.Case {
 			}
 		}
 	}
+	// the document lists the sequence flows in another order than the gateway does (list order decides)
+	for k := 2; k <= 3; k++ {
+		for def := -1; def <= k; def++ {
+			for truth := 0; truth < 1<<k; truth++ {
+				for _, v := range [][2]string{{"expr", "var"}, {"xpath", "var"}} {
+					c := c04Case{K: k, DefPos: def, Truth: truth, Tokens: 1, Lang: v[0], Source: v[1], DocRev: true}
+					c.Name = fmt.Sprintf("docrev-k%d-def%d-t%d-%s", k, def, truth, v[0])
+					cs = append(cs, fw.MkCase("stepwise", &c))
+				}
+			}
+		}
+	}
 	// many tokens over ONE incoming flow (more than the gateway's mailbox holds)
 	for k := 1; k <= 2; k++ {
 		for def := -1; def <= k; def++ {
@@ -156,6 +170,9 @@ func c04Run(c *c04Case, env *fw.Env, v *fw.V) {
 	cls := fmt.Sprintf("%s-%s", c.Lang, c.Source)
 	if c.Funnel {
 		cls += "-funnel"
+	}
+	if c.DocRev {
+		cls += "-docrev"
 	}
 	o := drive.Opts{ExtraSubs: 1}
 	vals := map[string]any{}
